@@ -110,6 +110,19 @@ let c10_call fn a =
       let x = vc_sx x and y = vc_sx y and r = vc_sx r in
       if vwfb x && vwfb y then
         e (Printf.sprintf "merge(%s,%s)=%s is not the pointwise max / stores a zero" (show_vc x) (show_vc y) (show_vc r)) (spec_merge_ok x y r)
+  | "from_iter", [ds; r] ->
+      (* collecting dots: per-actor greatest counter, no stored zero *)
+      let ds = List.map dot_sx (seq ds) and r = vc_sx r in
+      let actors = List.sort_uniq compare (List.map (fun d -> int_of_n d.dactor) ds @ List.map (fun (a, _) -> int_of_n a) (vc_to_list r)) in
+      let mx a = List.fold_left (fun m d -> if int_of_n d.dactor = a then max m (int_of_n d.dcounter) else m) 0 ds in
+      e (Printf.sprintf "from_iter([%s])=%s stores a zero counter" (String.concat ";" (List.map show_dot ds)) (show_vc r)) (vwfb r);
+      e (Printf.sprintf "from_iter([%s])=%s is not the per-actor maximum" (String.concat ";" (List.map show_dot ds)) (show_vc r))
+        (List.for_all (fun a -> int_of_n (vget r (n_of_int a)) = mx a) actors)
+  | "from_dot", [d; r] ->
+      let d = dot_sx d and r = vc_sx r in
+      e (Printf.sprintf "VClock::from(%s)=%s stores a zero counter" (show_dot d) (show_vc r)) (vwfb r);
+      e (Printf.sprintf "VClock::from(%s)=%s is not the clock of that dot" (show_dot d) (show_vc r))
+        (List.for_all (fun (a, n) -> a = d.dactor && n = d.dcounter) (vc_to_list r) && int_of_n (vget r d.dactor) = int_of_n d.dcounter)
   | "glb", [x; y; r] ->
       let x = vc_sx x and y = vc_sx y and r = vc_sx r in
       if vwfb x && vwfb y then
@@ -293,6 +306,32 @@ let ctx_call pre_ fn a =
          | "iter", [_; L (A "L" :: rs)] -> List.iter (fun r -> one (n_sx (field "val" r)) r) rs
          | _ -> ())
       with Bad _ -> ()));
+  (* C07 for Map (top level): the remove context [get]/[keys]/[iter] hand out for a key is exactly
+     the clock of the key's surviving witnesses (theorem C07_map_get_context_exact); like the
+     key-level C05 check it is never attributed to a (value-level) known finding *)
+  (if is_map pre_ && pre_ = !ty then
+     (try
+        let know = (try Hashtbl.find know_of !cur_rep with Not_found -> []) in
+        let witness k = (match !ty with
+          | "mapmv" -> mspec_entry_clock (known_ops (history_of (mop_sx mv_inst)) (kset know)) k
+          | "mapor" -> mspec_entry_clock (known_ops (history_of (mop_sx or_inst)) (kset know)) k
+          | _ -> mspec_entry_clock (known_ops (history_of (mop_sx (map_inst mv_inst))) (kset know)) k) in
+        let one k r =
+          let rm = vc_sx (field "rm_clock" r) in
+          count "C07";
+          if not (vc_eqb rm (witness k)) then begin
+            let saved = !classes in
+            classes := [];
+            report "C07" (Printf.sprintf "%s: remove context %s of key %s is not the clock of its surviving witnesses %s" fn (show_vc rm) (show_n k) (show_vc (witness k)));
+            classes := saved
+          end in
+        (match fn, a with
+         | "get", [_; k; r] -> one (n_sx k) r
+         | "keys", [_; L (A "L" :: rs)] -> List.iter (fun r -> one (n_sx (field "val" r)) r) rs
+         | "iter", [_; L (A "L" :: rs)] ->
+             List.iter (fun r -> match field "val" r with L [A "L"; k; _] -> one (n_sx k) r | _ -> ()) rs
+         | _ -> ())
+      with Bad _ -> ()));
   (match fn, a with
    | ("read" | "read_ctx"), [_; r] when pre_ = "mvreg" && !ty = "mvreg" ->
        check_ctx r;
@@ -369,6 +408,19 @@ let spec_check (know : int list) (s : sx) =
         | "mapmv" -> mkeyspec_ok (history_of (mop_sx mv_inst)) k (cmap_sx mv_inst s)
         | "mapor" -> mkeyspec_ok (history_of (mop_sx or_inst)) k (cmap_sx or_inst s)
         | _ -> mkeyspec_ok (history_of (mop_sx (map_inst mv_inst))) k (cmap_sx (map_inst mv_inst) s)) in
+      (* C09: a key whose every applied update is covered by an applied remove stays absent
+         (theorem C09_map_removed_key_stays_absent) *)
+      (let absent_ok = (match !ty with
+         | "mapmv" -> let os = known_ops (history_of (mop_sx mv_inst)) k and st = cmap_sx mv_inst s in
+                      List.for_all (fun (key, _) -> not (vis_empty (mspec_entry_clock os key))) (nmap_to_list st.mentries)
+         | "mapor" -> let os = known_ops (history_of (mop_sx or_inst)) k and st = cmap_sx or_inst s in
+                      List.for_all (fun (key, _) -> not (vis_empty (mspec_entry_clock os key))) (nmap_to_list st.mentries)
+         | _ -> let os = known_ops (history_of (mop_sx (map_inst mv_inst))) k and st = cmap_sx (map_inst mv_inst) s in
+                List.for_all (fun (key, _) -> not (vis_empty (mspec_entry_clock os key))) (nmap_to_list st.mentries)) in
+       let saved = !classes in
+       classes := [];
+       expect "C09" (fun () -> "a key is present although every update of it the replica has applied is covered by a remove it has applied") absent_ok;
+       classes := saved);
       let cat = (if !merges_seen then "merge" else if !all_causal then "causal" else if !all_per_actor then "peractor" else "any") in
       stat ("mapkey_" ^ (if ok then "ok_" else "bad_") ^ cat);
       (* the known findings T1-T3 are about nested VALUES; none of them explains a key-level
